@@ -72,6 +72,16 @@ func (association *Association) belongsToTargetsExpr(reflectValue reflect.Value)
 	return clause.IN{Column: column, Values: values}
 }
 
+// newDB returns a handle with a statement of its own: association.DB carries the owners' model,
+// table and conditions. db.Unscoped() still applies to what is deleted through it.
+func (association *Association) newDB() *DB {
+	tx := association.DB.Session(&Session{NewDB: true})
+	if association.DB.Statement.Unscoped {
+		tx = tx.Unscoped()
+	}
+	return tx
+}
+
 func (association *Association) Unscoped() *Association {
 	return &Association{
 		DB:           association.DB,
@@ -137,13 +147,15 @@ func (association *Association) Replace(values ...interface{}) error {
 					updateMap[ref.ForeignKey.DBName] = nil
 				}
 
-				association.Error = association.DB.UpdateColumns(updateMap).Error
+				// only the foreign keys of this relation: without the Omit the update would save the owners'
+				// other belongs-to relations first, which writes their foreign keys into updateMap too
+				association.Error = association.DB.Session(&Session{}).Omit(clause.Associations).UpdateColumns(updateMap).Error
 			}
 			if association.Unscope && oldBelongsToExpr != nil && association.Error == nil {
 				// delete the records the owners pointed at before, except those they point at now;
 				// on a statement of its own, association.DB carries the owners' table and conditions
 				model := reflect.New(rel.FieldSchema.ModelType).Interface()
-				tx := association.DB.Session(&Session{NewDB: true}).Model(model).Where(oldBelongsToExpr)
+				tx := association.newDB().Model(model).Where(oldBelongsToExpr)
 				if newBelongsToExpr := association.belongsToTargetsExpr(reflectValue); newBelongsToExpr != nil {
 					tx = tx.Not(newBelongsToExpr)
 				}
@@ -187,8 +199,8 @@ func (association *Association) Replace(values ...interface{}) error {
 			var (
 				primaryFields, relPrimaryFields     []*schema.Field
 				joinPrimaryKeys, joinRelPrimaryKeys []string
+				conds                               []clause.Expression
 				modelValue                          = reflect.New(rel.JoinTable.ModelType).Interface()
-				tx                                  = association.DB.Model(modelValue)
 			)
 
 			for _, ref := range rel.References {
@@ -201,23 +213,40 @@ func (association *Association) Replace(values ...interface{}) error {
 						joinRelPrimaryKeys = append(joinRelPrimaryKeys, ref.ForeignKey.DBName)
 					}
 				} else {
-					tx.Clauses(clause.Eq{Column: ref.ForeignKey.DBName, Value: ref.PrimaryValue})
+					conds = append(conds, clause.Eq{Column: ref.ForeignKey.DBName, Value: ref.PrimaryValue})
 				}
 			}
 
-			_, pvs := schema.GetIdentityFieldValuesMap(association.DB.Statement.Context, reflectValue, primaryFields)
-			if column, values := schema.ToQueryValues(rel.JoinTable.Table, joinPrimaryKeys, pvs); len(values) > 0 {
-				tx.Where(clause.IN{Column: column, Values: values})
-			} else {
-				return ErrPrimaryKeyRequired
+			// deleteOthers removes the join rows of the given owners except those to the given values
+			deleteOthers := func(owners reflect.Value, values []interface{}) error {
+				tx := association.newDB().Model(modelValue).Clauses(conds...)
+
+				_, pvs := schema.GetIdentityFieldValuesMap(association.DB.Statement.Context, owners, primaryFields)
+				if column, values := schema.ToQueryValues(rel.JoinTable.Table, joinPrimaryKeys, pvs); len(values) > 0 {
+					tx = tx.Where(clause.IN{Column: column, Values: values})
+				} else {
+					return ErrPrimaryKeyRequired
+				}
+
+				_, rvs := schema.GetIdentityFieldValuesMapFromValues(association.DB.Statement.Context, values, relPrimaryFields)
+				if relColumn, relValues := schema.ToQueryValues(rel.JoinTable.Table, joinRelPrimaryKeys, rvs); len(relValues) > 0 {
+					tx = tx.Where(clause.Not(clause.IN{Column: relColumn, Values: relValues}))
+				}
+
+				return tx.Delete(modelValue).Error
 			}
 
-			_, rvs := schema.GetIdentityFieldValuesMapFromValues(association.DB.Statement.Context, values, relPrimaryFields)
-			if relColumn, relValues := schema.ToQueryValues(rel.JoinTable.Table, joinRelPrimaryKeys, rvs); len(relValues) > 0 {
-				tx.Where(clause.Not(clause.IN{Column: relColumn, Values: relValues}))
+			if kind := reflectValue.Kind(); (kind == reflect.Slice || kind == reflect.Array) && len(values) > 0 && len(values) == reflectValue.Len() {
+				// one value per owner: every owner keeps its own new values only
+				for i := 0; i < reflectValue.Len() && association.Error == nil; i++ {
+					association.Error = deleteOthers(reflectValue.Index(i), values[i:i+1])
+				}
+			} else if err := deleteOthers(reflectValue, values); err != nil {
+				if err == ErrPrimaryKeyRequired {
+					return err
+				}
+				association.Error = err
 			}
-
-			association.Error = tx.Delete(modelValue).Error
 		}
 	}
 	return association.Error
@@ -275,7 +304,7 @@ func (association *Association) Delete(values ...interface{}) error {
 				}
 				if column, values := schema.ToQueryValues(rel.FieldSchema.Table, refColumns, rvs); len(values) > 0 {
 					model := reflect.New(rel.FieldSchema.ModelType).Interface()
-					association.Error = associationDB.Session(&Session{NewDB: true}).Model(model).
+					association.Error = association.newDB().Model(model).
 						Where(linkedExpr).Where(clause.IN{Column: column, Values: values}).Delete(model).Error
 				}
 			}
